@@ -7,10 +7,25 @@ every clause again, plus levenshtein_alignment_substring, edit_stats_for_alignme
 aggregate, and mixed-type symbols (where numpy's coercion is outside the proof's element model, A5).
 """
 import itertools
-from vf import core, bounded
+from vf import core, bounded, selftest
 from vf.core import Failure, sig
 from specs import lev as L
 
+SA = 'pero_ocr/sequence_alignment.py'
+ES = 'pero_ocr/error_summary.py'
+MUTANTS = [
+    {'name': 'distance: deletion of the first column charged as an insertion', 'file': SA, 'old': '        dist[0] += del_cost\n        for ii in range(len(dist) - 1):', 'new': '        dist[0] += ins_cost\n        for ii in range(len(dist) - 1):'},
+    {'name': 'distance: insertion relaxation stops one cell early', 'file': SA, 'old': '        for ii in range(len(dist) - 1):\n            if dist[ii + 1] > dist[ii] + ins_cost:\n                dist[ii + 1] = dist[ii] + ins_cost\n    return dist[-1]',
+     'new': '        for ii in range(len(dist) - 2):\n            if dist[ii + 1] > dist[ii] + ins_cost:\n                dist[ii + 1] = dist[ii] + ins_cost\n    return dist[-1]'},
+    {'name': 'alignment: substitution and deletion swapped in the emitted pair', 'file': SA, 'old': "        alig.insert(0, (empty_symbol if where < 0 else source[src_pos],\n                        empty_symbol if where > 0 else target[tar_pos]))\n    return alig\n\n\ndef levenshtein_alignment_path",
+     'new': "        alig.insert(0, (empty_symbol if where > 0 else source[src_pos],\n                        empty_symbol if where < 0 else target[tar_pos]))\n    return alig\n\n\ndef levenshtein_alignment_path"},
+    {'name': 'path: the walk is not reversed', 'file': SA, 'old': '        align.append(where)\n    return list(reversed(align))', 'new': '        align.append(where)\n    return list(align)'},
+    {'name': 'original-defect: substring distance starts every prefix at cost 0', 'file': SA,
+     'old': "    dist[:-1] = np.arange(len(target) + 1) * ins_cost\n    dist[-1] = dist[-2]\n    for s in source:\n        dist[1:-1] = np.minimum", 'new': "    dist[:-1] = 0\n    dist[-1] = dist[-2]\n    for s in source:\n        dist[1:-1] = np.minimum"},
+    {'name': 'edit statistics: deletions counted among the substitutions', 'file': SA, 'old': '    nsub = nphn - ncor - ndel', 'new': '    nsub = nphn - ncor'},
+    {'name': 'aggregate: substitutions summed from the insertions', 'file': ES, 'old': '            total_nb_subs += err.nb_subs', 'new': '            total_nb_subs += err.nb_inss'},
+    {'name': 'line summary: reference length taken from the hypothesis', 'file': ES, 'old': '        ref_len = len(ref)', 'new': '        ref_len = len(hyp)'},
+]
 PROOF_KEYS = ['levenshtein_distance', 'levenshtein_alignment', 'levenshtein_alignment_path',
               'levenshtein_distance_substring']
 
@@ -165,6 +180,8 @@ def run(ctx):
     aggregate_check(ctx)
     bounded.close()
     ctx.trusted.append('A5: np.fromiter(seq, dtype=object) preserves element identity/equality (checked at run time on str, int and mixed symbols)')
+    if thorough:
+        selftest.run(ctx, MUTANTS)
 
 
 def replay(entry):
